@@ -165,4 +165,17 @@ theorem C08_source_skeletons_2 :
     Gen.Skel.Store_Recover = Expected.Skel.Store_Recover :=
   ⟨rfl, rfl, rfl, rfl⟩
 
+/-- the Consul leaser (consul/consul.go: driven by the lease suite's consul mode against a fake
+    Consul server): regenerated control skeletons -/
+theorem C08_source_skeletons_consul :
+    Gen.Skel.Leaser_Acquire = Expected.Skel.Leaser_Acquire ∧
+    Gen.Skel.Leaser_AcquireExisting = Expected.Skel.Leaser_AcquireExisting ∧
+    Gen.Skel.Leaser_PrimaryInfo = Expected.Skel.Leaser_PrimaryInfo ∧
+    Gen.Skel.Leaser_ClusterID = Expected.Skel.Leaser_ClusterID ∧
+    Gen.Skel.Leaser_SetClusterID = Expected.Skel.Leaser_SetClusterID ∧
+    Gen.Skel.Lease_Renew = Expected.Skel.Lease_Renew ∧
+    Gen.Skel.Lease_Handoff = Expected.Skel.Lease_Handoff ∧
+    Gen.Skel.Lease_Close = Expected.Skel.Lease_Close :=
+  ⟨rfl, rfl, rfl, rfl, rfl, rfl, rfl, rfl⟩
+
 end LiteFSVerif.C08
